@@ -598,6 +598,40 @@ func addDraw(st *hx.Stream, parts []string, rich bool, style int, maxW, maxH uin
 	js["segments"] = parts
 	js["rich"] = rich
 	js["max"] = []int{int(maxW), int(maxH)}
+	// the class that decides the SIZE of the surface: among the lines that get a row, the widest
+	// one (in columns) is not the first, and an earlier line has at least as many graphemes
+	shown := len(lines)
+	if shown > int(maxH) {
+		shown = int(maxH)
+	}
+	widest, wmax, most := 0, -1, 0
+	for i := 0; i < shown; i++ {
+		if w := sumWidth(lines[i]); w > wmax {
+			widest, wmax = i, w
+		}
+	}
+	for i := 0; i < widest; i++ {
+		if len(lines[i]) > most {
+			most = len(lines[i])
+		}
+	}
+	if widest > 0 && most >= len(lines[widest]) {
+		tags = append(tags, "draw-widest-line-later-with-fewer-graphemes")
+	}
+	if len(lines) > shown && shown > 0 {
+		below := 0
+		for i := shown; i < len(lines); i++ {
+			if w := sumWidth(lines[i]); w > below {
+				below = w
+			}
+		}
+		if below > wmax {
+			tags = append(tags, "draw-widest-line-below-max-height")
+		}
+	}
+	if wmax > int(maxW) {
+		tags = append(tags, "draw-line-wider-than-max-width")
+	}
 	st.Add(hx.Tuple(hx.Bool(rich), hx.Z(int64(style)), hx.ZU(uint64(maxW)), hx.ZU(uint64(maxH)), linesTerm(lines), obs),
 		js, len(lines) > 1 && int(maxH) >= 2, tags...)
 }
@@ -671,6 +705,90 @@ func randomText(cfg *hx.Config, maxAtoms int, tabs bool) string {
 		}
 	}
 	return b.String()
+}
+
+// texts for the size of the surface (findContainerSize): a few lines of different kinds (narrow
+// letters, wide CJK / emoji / full-width, mixed, words with spaces), so that the line with the most
+// graphemes is not the widest one and the widest one is anywhere, also below Max.Height
+var narrowAtoms = []string{"a", "b", "x", "0", "é", "-", "."}
+var wideAtoms = []string{"中", "文", "漢", "字", "👍", "한", "ａ", "。"}
+
+func randomLine(cfg *hx.Config) string {
+	var b strings.Builder
+	n := cfg.Rand.Intn(10)
+	kind := cfg.Rand.Intn(5)
+	for j := 0; j < n; j++ {
+		switch kind {
+		case 0:
+			b.WriteString(narrowAtoms[cfg.Rand.Intn(len(narrowAtoms))])
+		case 1:
+			b.WriteString(wideAtoms[cfg.Rand.Intn(len(wideAtoms))])
+		case 2:
+			if cfg.Rand.Intn(2) == 0 {
+				b.WriteString(narrowAtoms[cfg.Rand.Intn(len(narrowAtoms))])
+			} else {
+				b.WriteString(wideAtoms[cfg.Rand.Intn(len(wideAtoms))])
+			}
+		case 3:
+			if j > 0 && cfg.Rand.Intn(4) == 0 {
+				b.WriteString(" ")
+			} else {
+				b.WriteString(narrowAtoms[cfg.Rand.Intn(5)])
+			}
+		default:
+			if j > 0 && cfg.Rand.Intn(4) == 0 {
+				b.WriteString(spaces[cfg.Rand.Intn(len(spaces))])
+			} else {
+				b.WriteString(wideAtoms[cfg.Rand.Intn(len(wideAtoms))])
+			}
+		}
+	}
+	return b.String()
+}
+
+func randomLinesText(cfg *hx.Config) (string, int, int) {
+	k := 1 + cfg.Rand.Intn(6)
+	var b strings.Builder
+	wmax := 0
+	for i := 0; i < k; i++ {
+		l := randomLine(cfg)
+		if w := charsWidth(l); w > wmax {
+			wmax = w
+		}
+		b.WriteString(l)
+		if i+1 < k || cfg.Rand.Intn(4) == 0 {
+			switch cfg.Rand.Intn(8) {
+			case 0:
+				b.WriteString("\r\n")
+			case 1:
+				b.WriteString(" ") // the soft wrap decides
+			default:
+				b.WriteString("\n")
+			}
+		}
+	}
+	return b.String(), k, wmax
+}
+
+// a Max.Width / Max.Height around the interesting boundary (the widest line, the number of lines)
+func around(cfg *hx.Config, v int) uint16 {
+	switch cfg.Rand.Intn(8) {
+	case 0:
+		return 65535
+	case 1:
+		return uint16(cfg.Rand.Intn(12))
+	case 2, 3:
+		return uint16(v)
+	case 4:
+		if v > 0 {
+			return uint16(v - 1)
+		}
+		return 0
+	case 5:
+		return uint16(v + 1)
+	default:
+		return uint16(v + 1 + cfg.Rand.Intn(8))
+	}
 }
 
 // splitParts cuts a text at random rune boundaries into 1..4 styled segments
@@ -776,7 +894,31 @@ func main() {
 			addDraw(draw, []string{s}, false, 2, w, uint16(1+len(s)%3), "exhaustive-len3")
 		}
 	})
-	cfg.Write("C16", "texts: regression inputs, all strings over {a,b,space,hyphen,newline,wide CJK,combining acute} up to a fixed length at widths 0..6, random word/space/punctuation/line-break texts (wide, emoji, ZWJ, combining, NBSP, CRLF, tabs) at random widths incl. 0 and 65535; one case = one text at all its widths; non-trivial = some width wraps the text into more than one line",
+	// the size of the surface: every ordered pair of lines of different kinds, and random texts of
+	// 1..6 such lines, with Max.Width / Max.Height around the widest line / the number of lines
+	sizeLines := []string{"abc", "漢漢漢", "ab", "漢", "abcde fg", "漢字漢字漢", "a中b", "👍👍", ""}
+	for _, a := range sizeLines {
+		for _, b := range sizeLines {
+			for _, wh := range [][2]uint16{{10, 3}, {5, 2}, {7, 1}} {
+				addDraw(draw, []string{a + "\n" + b}, false, 4, wh[0], wh[1], "size-directed")
+				addDraw(draw, []string{a + "\n", b}, true, 0, wh[0], wh[1], "size-directed")
+			}
+		}
+	}
+	nSize := 200
+	if cfg.Thorough() {
+		nSize = 2500
+	}
+	for i := 0; i < nSize; i++ {
+		s, k, wmax := randomLinesText(cfg)
+		mw, mh := around(cfg, wmax), around(cfg, k)
+		if mw == 0 && cfg.Rand.Intn(3) > 0 {
+			mw = uint16(1 + wmax)
+		}
+		addDraw(draw, []string{s}, false, 1+cfg.Rand.Intn(5), mw, mh, "size-random")
+		addDraw(draw, splitParts(cfg, s), true, 0, mw, mh, "size-random")
+	}
+	cfg.Write("C16", "texts: regression inputs, all strings over {a,b,space,hyphen,newline,wide CJK,combining acute} up to a fixed length at widths 0..6, random word/space/punctuation/line-break texts (wide, emoji, ZWJ, combining, NBSP, CRLF, tabs) at random widths incl. 0 and 65535; one case = one text at all its widths; non-trivial = some width wraps the text into more than one line; Draw stream additionally: ordered pairs and random sequences of 1..6 lines of narrow / wide / mixed characters with Max.Width and Max.Height around the widest line and the number of lines (tags draw-widest-line-later-with-fewer-graphemes, draw-widest-line-below-max-height, draw-line-wider-than-max-width count the classes that decide the size of the surface)",
 		[]*hx.Stream{plain, rich, hard, draw}, map[string]interface{}{"skipped_not_tiled_by_characters": skipped,
 			"plain_cases": plainCases, "plain_cases_where_oracle_hypothesis_orc_consistent_holds": plainConsistent}, nil)
 }
